@@ -266,6 +266,25 @@ def check(v, tier):
                 nm['f1'], nm['f2'] = x, y
                 if s != 'Default':
                     jobs.append(('C19|fieldpair2|%s+%s|%s|%s' % (x, y, kind, s), program(s, kind, nm), program(s, kind, nm, derive=False), 'fieldpair', x))
+    # chains of generic parameters named like the successive fresh names a template would try (`__H`, `__H_`, `__H__`, ...) in every order, as type and const parameters
+    fresh_bases = sorted({i.rstrip('_') for i in plain if i.startswith('__') and i.rstrip('_')})
+    v.notes['fresh_name_bases'] = fresh_bases
+    for base in fresh_bases:
+        chain = [base, base + '_', base + '__']
+        for r in (2, 3):
+            for perm in itertools.permutations(chain[:r]):
+                for consts in itertools.product((False, True), repeat=r):
+                    if sum(consts) > 1 and r == 3:
+                        continue
+                    gd = ', '.join(('const %s: usize' % n) if c else n for n, c in zip(perm, consts))
+                    fields = ', '.join(('pub g%d: [u8; %s]' % (k, n)) if c else ('pub g%d: %s' % (k, n)) for k, (n, c) in enumerate(zip(perm, consts)))
+                    inst = ', '.join('2' if c else 'u8' for c in consts)
+                    mkv = lambda val: 'Ty::<%s> { %s }' % (inst, ', '.join(('g%d: [%d, 0]' % (k, val)) if c else ('g%d: %d' % (k, val)) for k, c in enumerate(consts)))
+                    for s_, tl, chk in (('Hash', 'Hash', 'r.ck(trace_of(&a).unwrap() != trace_of(&b).unwrap(), 0, &|| "hash does not depend on the fields".to_string());'),
+                                        ('all', 'Debug, Clone, PartialEq, Eq, PartialOrd, Ord, Hash', 'r.ck(a != b && a < b && a.clone() == a, 0, &|| "impls do not follow the fields".to_string());')):
+                        prog = '#[derive(Educe)]\n#[educe(%s)]\npub struct Ty<%s> { %s }\npub fn check(r: &mut Rep) {\n    let a = %s;\n    let b = %s;\n    %s\n}\n' % (tl, gd, fields, mkv(1), mkv(2), chk)
+                        twin = 'pub struct Ty<%s> { %s }\npub trait VerifMarker {}\nimpl<%s> VerifMarker for Ty<%s> {}\n' % (gd, fields, gd, ', '.join(perm))
+                        jobs.append(('C19|fresh-chain|%s|%s|%s' % ('+'.join(perm), ''.join('c' if c else 't' for c in consts), s_), prog, twin, 'fresh-chain', base))
     # phase 1: the user's side must be well-typed on its own (hand-written marker impl, no derive)
     twins = [Case('twin|' + k, tw, run=False, expect='any') for k, p, tw, role, ident in jobs]
     tres = rt_run(twins, run=False, name='C19tw', shard_size=600)
@@ -300,7 +319,7 @@ def check(v, tier):
             v.cov['traces_validated_against_impl'] += 1
     return v.finish('(a) every identifier harvested from the expansions of the catalogue corpus (computed per run by the in-process engine, so identifiers introduced by a code change are picked up) x role '
                     '{field name, variant name, type parameter, const parameter, lifetime, type name} x shape {named struct, tuple struct, enum} x trait set {Debug with a method field, Clone with a method, '
-                    'Copy+Clone, PartialEq+Eq, PartialOrd, Ord, Hash, Default with new, Deref+DerefMut, Into x2}; for field names additionally the attribute-dependent template paths {Debug with named_field flipped (with and without a method field), Debug with the name off, PartialEq / PartialOrd+Ord / Hash / Clone with methods on the neighbouring fields}; sibling fields whose names differ by a binding prefix the templates use (harvested), '
+                    'Copy+Clone, PartialEq+Eq, PartialOrd, Ord, Hash, Default with new, Deref+DerefMut, Into x2}; for field names additionally the attribute-dependent template paths {Debug with named_field flipped (with and without a method field), Debug with the name off, PartialEq / PartialOrd+Ord / Hash / Clone with methods on the neighbouring fields}; generic parameters named like the successive fresh names a template tries (harvested `__X` identifiers + `_`, `__`) in every order as type / const parameters; sibling fields whose names differ by a binding prefix the templates use (harvested), '
                     'tuple-binding names as field names; (b) the derive placed in a module that shadows, in the type and value namespaces, each of 34 prelude / std names and 13 module names, one at a '
                     'time and all at once; traits in scope that give every type a method named like a std method (into, clone, eq, cmp, hash, fmt, deref, default, ...); #![no_std] crate.  Guard: a twin with a hand-written marker impl and no derive must compile, otherwise the identifier / role pair is dropped as ill-typed '
                     'on the user\'s side.  Oracle: compiles and a behavioural mini-oracle per trait set gives the expected result',
